@@ -1,0 +1,29 @@
+//! Verification hooks (cargo feature `verif-hooks`): trace points emit one JSON
+//! object per event to a sink installed by the verification harness. Events are
+//! ordered by a process-global sequence number shared with the harness, so
+//! that events of other threads (wakers, the peer of a pseudo terminal) and
+//! events of the polling thread are totally ordered without wall clocks.
+//! With the feature off this module does not exist.
+use std::sync::{
+    Mutex,
+    atomic::{AtomicU64, Ordering},
+};
+
+static SEQ: AtomicU64 = AtomicU64::new(0);
+static SINK: Mutex<Option<Box<dyn FnMut(u64, String) + Send>>> = Mutex::new(None);
+
+/// Install event sink (replaces previous one)
+pub fn install(sink: Option<Box<dyn FnMut(u64, String) + Send>>) {
+    *SINK.lock().unwrap_or_else(|e| e.into_inner()) = sink;
+}
+
+/// Emit event, `body` is a JSON object (only evaluated if sink is installed).
+/// Sequence number is taken while holding the sink lock, events reach the
+/// sink in sequence order.
+pub fn emit(body: impl FnOnce() -> String) {
+    let mut sink = SINK.lock().unwrap_or_else(|e| e.into_inner());
+    if let Some(sink) = sink.as_mut() {
+        let seq = SEQ.fetch_add(1, Ordering::SeqCst);
+        sink(seq, body());
+    }
+}
